@@ -132,7 +132,7 @@ def run_family_k(prop, tier, seed, report, scratch):
             if bad:
                 raise Inconclusive(bad)
             nrec += n
-            classify(report, prop, viols, plan)
+            classify(report, prop, viols, plan, tpath)
             os.remove(tpath)
         nscen += len(scen)
         for s in rnd.sample(scen, min(2, len(scen))):
@@ -264,7 +264,14 @@ def lib_frames(blk):
     return sorted(out)
 
 
-def classify(report, prop, viols, plan):
+def classify(report, prop, viols, plan, tpath=None):
+    finals = {}
+    if tpath and any(r and r.get("k") == "step" for _, r in viols):
+        with open(tpath) as f:
+            for line in f:
+                if '"k":"final"' in line:
+                    d = json.loads(line)
+                    finals[d["sid"]] = d.get("scen")
     for opn, rec in viols:
         if opn.startswith("H_"):
             raise Inconclusive("concurrency trace not well formed: " + json.dumps(rec)[:400])
@@ -278,5 +285,32 @@ def classify(report, prop, viols, plan):
                 desc["stuck"] = len(rec.get("stuck", []))
             else:
                 desc["op"] = rec["op"]["op"] + rec["op"]["acc"]
-        payload = {"family": "K", "record": {k: v for k, v in (rec or {}).items() if k not in ("pre", "post")}}
+        payload = {"family": "K", "record": {k: v for k, v in (rec or {}).items() if k not in ("pre", "post")},
+                   "scenario": (rec or {}).get("scen") or finals.get((rec or {}).get("sid")), "plan": plan}
         report.add_violation(desc, payload)
+
+
+def replay_payload(prop, payload, scratch, report):
+    """Re-runs the scenario of a replay file (same interleaving) on the current tree and validates it again."""
+    scen = payload.get("scenario")
+    plan = payload.get("plan") or {}
+    if not scen:
+        raise Inconclusive("replay file has no scenario (race reports are replayed by re-running the check)")
+    binpath = build_harness(scratch)
+    specdir = stage_spec(scratch)
+    nl = plan.get("NL", 2)
+    hcfg = {"NR": nl, "Writer0": plan.get("Writer0", list(range(1, nl + 1))), "Lid": ["X"] * nl, "Fn": "LWW",
+            "Denied": [[] for _ in range(nl)], "Codec": "cbor", "Seed": report.seed, "Audit": ""}
+    cfgj = os.path.join(scratch, "r.cfg.json")
+    json.dump(hcfg, open(cfgj, "w"))
+    sp = os.path.join(scratch, "r.scen")
+    open(sp, "w").write((scen if isinstance(scen, str) else json.dumps(scen)) + "\n")
+    outp = os.path.join(scratch, "r.trace")
+    pr = run([binpath, "crun", "-cfg", cfgj, "-scenarios", sp, "-out", outp], timeout=600)
+    if pr.returncode != 0:
+        raise Inconclusive("crun failed:\n" + pr.stdout[-2000:])
+    n, viols, bad = validate_traces(specdir, "Trace_LogConc", outp, ["H_WellFormed"] + P_OPS[prop], [], scratch, nshards=1)
+    if bad:
+        raise Inconclusive(bad)
+    classify(report, prop, viols, {"name": plan.get("name", "replay")}, outp)
+    report.coverage.update({"states": 2 * n, "transitions": n, "traces_validated_against_impl": 1, "samples": [{"scenario": scen}]})
